@@ -1,6 +1,7 @@
 package main
 
 import (
+	"path/filepath"
 	"bytes"
 	"fmt"
 	"io"
@@ -15,7 +16,7 @@ import (
 // render in the middle, all file sources and file encodings. Every successful output must equal
 // the first one; the model threads the Msg state through the same history.
 
-var renderPaths = []string{"WriteTo", "Write", "NewReader", "UpdateReader", "WriteToFile", "WriteToTempFile", "fail"}
+var renderPaths = []string{"WriteTo", "Write", "NewReader", "UpdateReader", "WriteToFile", "WriteToTempFile", "fail", "SkipMiddleware", "Sendmail", "SendmailMissing"}
 
 func renderVia(m *mail.Msg, path string, failAt int, shared **mail.Reader) (out []byte, err error, line string) {
 	switch path {
@@ -75,6 +76,32 @@ func renderVia(m *mail.Msg, path string, failAt int, shared **mail.Reader) (out 
 			if err == nil {
 				out, err = os.ReadFile(name)
 			}
+		case "SkipMiddleware":
+			// no middleware is configured: the same as WriteTo
+			var b bytes.Buffer
+			_, err = m.WriteToSkipMiddleware(&b, "no-such-middleware")
+			out = b.Bytes()
+		case "Sendmail":
+			// a local "sendmail" that stores what it is given on standard input
+			dir, e := os.MkdirTemp("", "gmverif-sendmail-")
+			if e != nil {
+				err = e
+				return
+			}
+			defer os.RemoveAll(dir)
+			script := filepath.Join(dir, "sendmail")
+			target := filepath.Join(dir, "out.eml")
+			if e := os.WriteFile(script, []byte("#!/bin/sh\ncat > "+target+"\n"), 0o700); e != nil {
+				err = e
+				return
+			}
+			err = m.WriteToSendmailWithCommand(script)
+			if err == nil {
+				out, err = os.ReadFile(target)
+			}
+		case "SendmailMissing":
+			// the sendmail binary does not exist: the call fails before anything is rendered
+			err = m.WriteToSendmailWithCommand("/nonexistent/gmverif/sendmail")
 		case "WriteToTempFile":
 			name, e := m.WriteToTempFile()
 			if name != "" {
@@ -189,10 +216,22 @@ func init() {
 							failAt = r.Intn(600)
 						}
 					}
+					if flaky && h == 0 {
+						// (decided above)
+					} else if path == "SendmailMissing" {
+						nontrivial = true
+					}
 					history = append(history, path)
 					out, err, line := renderVia(m, path, failAt, &shared)
 					c.rep.OracleChecked++
 					in := map[string]interface{}{"spec": spc, "history": history, "fail_at": failAt}
+					if path == "SendmailMissing" {
+						// nothing was rendered: no model operation; the message must be what it was
+						if err == nil {
+							c.Violate("c12-silent-success", "WriteToSendmailWithCommand reported success for a binary that does not exist", in)
+						}
+						continue
+					}
 					if flaky && h == 0 {
 						// the render during which the sources fail
 						if !flakyViaReader {
